@@ -570,3 +570,157 @@ Proof.
   set (K := pow_nn y (2 - p) / ((1 - p) * (2 - p))).
   lra.
 Qed.
+
+(** the convex members of the Tweedie family: identity link with the Normal deviance, log link
+    with the Poisson, compound Poisson-Gamma (1 < p < 2) and Gamma deviances.  (Other combinations
+    are not convex in the linear predictor in general: e.g. p = 3 with the log link contains
+    the concave term -e^-z, and p = 0 with the log link contains -2 y e^z.) *)
+Definition glm_convex_family (p : Q) (l : link) (dev : R -> R -> R) : Prop :=
+  (Qeq_bool p 0 = true /\ l = Identity /\ dev = dev_normal) \/
+  (l = Log /\ ((Q2R p = 1 /\ dev = dev_poisson) \/ (Q2R p = 2 /\ dev = dev_gamma) \/
+               (1 < Q2R p < 2 /\ dev = dev_general (Q2R p)))).
+
+Lemma Qeq_bool_0_R p : Qeq_bool p 0 = true -> Q2R p = 0.
+Proof. intros H. apply Qeq_bool_R in H. rewrite H. apply RMicromega.Q2R_0. Qed.
+
+Lemma glm_convex_family_ok p l dev : glm_convex_family p l dev -> glm_family_ok p l dev.
+Proof.
+  intros [[E [_ D]]|[El D]]; [left; auto|right].
+  assert (Hn : Qeq_bool p 0 = false).
+  { destruct (Qeq_bool p 0) eqn:E; [|reflexivity]. apply Qeq_bool_0_R in E.
+    destruct D as [[P _]|[[P _]|[P _]]]; lra. }
+  split; [exact Hn|]. split; [subst l; discriminate|].
+  destruct D as [[P D]|[[P D]|[P D]]]; [left; auto|right; left; auto|right; right; repeat split; auto; lra].
+Qed.
+
+Lemma glm_family_tangent p l dev yi : glm_convex_family p l dev ->
+  (Qeq_bool p 0 = true \/ (Q2R p = 2 /\ 0 < yi) \/ (Q2R p <> 2 /\ 0 <= yi)) ->
+  tangent_ok (glm_ell dev l) (glm_phi (ddev_of p) l) yi.
+Proof.
+  intros Hf Hy. unfold ddev_of. destruct Hf as [[E [El D]]|[El D]].
+  - rewrite E. subst l dev. apply normal_identity_tangent.
+  - assert (Hn : Qeq_bool p 0 = false).
+    { destruct (Qeq_bool p 0) eqn:E; [|reflexivity]. apply Qeq_bool_0_R in E.
+      destruct D as [[P _]|[[P _]|[P _]]]; lra. }
+    rewrite Hn. subst l. destruct Hy as [Hy|Hy]; [congruence|].
+    destruct D as [[P D]|[[P D]|[P D]]]; subst dev.
+    + rewrite P. apply poisson_log_tangent. destruct Hy as [[Q _]|[_ Q]]; [lra|exact Q].
+    + rewrite P. apply gamma_log_tangent. destruct Hy as [[_ Q]|[Q _]]; [exact Q|contradiction].
+    + apply general_log_tangent; [exact P|]. destruct Hy as [[Q _]|[_ Q]]; [lra|exact Q].
+Qed.
+
+Lemma glm_convex_optimal_lemma p l dev alpha X y w b w' b' tau :
+  glm_convex_family p l dev -> glm_targets_ok p y ->
+  0 <= alpha -> 0 <= tau -> length w' = length w -> (forall x, In x X -> length x = length w) ->
+  (forall j, (j < length w)%nat -> Rabs (glm_grad_w (ddev_of p) l alpha X y w b j) <= tau) ->
+  Rabs (glm_grad_b (ddev_of p) l X y w b) <= tau ->
+  glm_loss dev l alpha X y w b - tau * (l1norm (vsub w' w) + Rabs (b' - b)) <= glm_loss dev l alpha X y w' b'.
+Proof.
+  intros Hf Hy Ha Ht Hl Hdim Hg Hb. unfold glm_loss.
+  apply (glin_convex_optimal (glm_ell dev l) (glm_phi (ddev_of p) l)); auto; try lra.
+  - intros x yi Hin. apply glm_family_tangent; [exact Hf|].
+    apply in_combine_r in Hin. destruct Hy as [E|[[E Q]|[E Q]]]; auto.
+  - intros j Hj. replace (2 * (alpha / 2)) with alpha by field. apply Hg. exact Hj.
+Qed.
+
+(** * Certificates of a run as global near-optimality (convex objectives) *)
+Lemma glin_certified_optimal (ell phi : R -> R -> R) alpha icpt X y w b tau :
+  0 <= alpha -> 0 <= tau -> (forall x, In x X -> length x = length w) ->
+  (forall x yi, In (x, yi) (combine X y) -> tangent_ok ell phi yi) ->
+  (forall gj, In gj (glin_grad phi alpha icpt X y w b) -> Rabs gj <= tau) ->
+  forall w' b', length w' = length w -> (icpt = false -> b' = b) ->
+  glin_obj ell (alpha / 2) X y w b - tau * (l1norm (vsub w' w) + Rabs (b' - b)) <= glin_obj ell (alpha / 2) X y w' b'.
+Proof.
+  intros Ha Ht Hdim Htan Hg w' b' Hl Hb.
+  apply (glin_convex_optimal ell phi); auto; try lra.
+  - intros j Hj. replace (2 * (alpha / 2)) with alpha by field. apply Hg. unfold glin_grad.
+    apply in_or_app. left. apply in_map_iff. exists j. split; [reflexivity|apply in_seq; lia].
+  - destruct icpt; [right|left; auto].
+    apply Hg. unfold glin_grad. apply in_or_app. right. left. reflexivity.
+Qed.
+
+Lemma ok_icpt_zero (icpt : bool) b : (icpt || Qeq_bool (f64_Q b) 0)%bool = true -> icpt = false -> f64_R b = 0.
+Proof. intros H E. subst icpt. simpl in H. unfold f64_R. apply Qeq_bool_0_R. exact H. Qed.
+
+Lemma binary_fit_near_optimal_lemma alpha icpt X t w b tol :
+  bin_ok alpha icpt X t w b tol = true -> 0 <= f64_R alpha ->
+  (forall x, In x (rmat X) -> length x = length (rvec w)) ->
+  forall w' b', length w' = length (rvec w) -> (icpt = false -> b' = 0) ->
+  bin_loss (f64_R alpha) (rmat X) (map sign_R t) (rvec w) (f64_R b)
+  - tauR tol * (l1norm (vsub w' (rvec w)) + Rabs (b' - f64_R b))
+  <= bin_loss (f64_R alpha) (rmat X) (map sign_R t) w' b'.
+Proof.
+  intros H Ha Hdim w' b' Hl Hb.
+  destruct (binary_certified _ _ _ _ _ _ _ H Hdim) as [_ [_ [_ Hg]]].
+  assert (Ht : 0 <= tauR tol).
+  { unfold bin_ok in H. apply andb_true_iff in H as [H _]. apply tol_nonneg; exact H. }
+  assert (Hz : icpt = false -> f64_R b = 0).
+  { unfold bin_ok in H. apply andb_true_iff in H as [_ H]. repeat (apply andb_true_iff in H as [H ?]).
+    apply ok_icpt_zero. assumption. }
+  unfold bin_loss. apply (glin_certified_optimal bin_ell bin_phi _ icpt); auto.
+  - intros x yi _ z z'. apply bin_ell_tangent.
+  - intros E. rewrite (Hb E), (Hz E). reflexivity.
+Qed.
+
+Lemma glm_fit_near_optimal_lemma p l dev alpha icpt X y w b tol :
+  glm_ok p l alpha icpt X y w b tol = true ->
+  glm_convex_family (f64_Q p) l dev -> glm_targets_ok (f64_Q p) (rvec y) -> 0 <= f64_R alpha ->
+  (forall x, In x (rmat X) -> length x = length (rvec w)) ->
+  forall w' b', length w' = length (rvec w) -> (icpt = false -> b' = 0) ->
+  glm_loss dev l (f64_R alpha) (rmat X) (rvec y) (rvec w) (f64_R b)
+  - tauR tol * (l1norm (vsub w' (rvec w)) + Rabs (b' - f64_R b))
+  <= glm_loss dev l (f64_R alpha) (rmat X) (rvec y) w' b'.
+Proof.
+  intros H Hf Hy Ha Hdim w' b' Hl Hb.
+  destruct (glm_certified _ _ dev _ _ _ _ _ _ _ H (glm_convex_family_ok _ _ _ Hf) Hy Hdim) as [_ [_ [_ Hg]]].
+  assert (Ht : 0 <= tauR tol).
+  { unfold glm_ok in H. apply andb_true_iff in H as [H _]. apply tol_nonneg; exact H. }
+  assert (Hz : icpt = false -> f64_R b = 0).
+  { unfold glm_ok in H. apply andb_true_iff in H as [_ H]. repeat (apply andb_true_iff in H as [H ?]).
+    apply ok_icpt_zero. assumption. }
+  unfold glm_loss. apply (glin_certified_optimal (glm_ell dev l) (glm_phi (ddev_of (f64_Q p)) l) _ icpt); auto.
+  - intros x yi Hin. apply glm_family_tangent; [exact Hf|].
+    apply in_combine_r in Hin. destruct Hy as [E|[[E Q]|[E Q]]]; auto.
+  - intros E. rewrite (Hb E), (Hz E). reflexivity.
+Qed.
+
+(** non-vacuity: the Poisson / log instance accepted by the checker in Proofs.v (glm_ok_example) is in the convex family *)
+Example glm_convex_family_example : glm_convex_family (f64_Q 1%float) Log dev_poisson /\ glm_targets_ok (f64_Q 1%float) [1; 3; 3; 1].
+Proof.
+  assert (E : Q2R (f64_Q 1%float) = 1) by (vm_compute f64_Q; unfold Q2R; simpl; lra).
+  split.
+  - right. split; [reflexivity|]. left. split; [exact E|reflexivity].
+  - right. right. split; [lra|]. intros v Hv. simpl in Hv. intuition lra.
+Qed.
+
+(** a non-convex member: the Normal deviance with the log link, 1/2 (y - e^z)^2, is not convex in z
+    (second derivative e^z (2 e^z - y) < 0 for e^z < y / 2); for y = 4 the tangent at z = 0
+    overshoots the function at z' = -2 *)
+Example normal_log_not_convex : ~ tangent_ok (glm_ell dev_normal Log) (glm_phi dev_deriv_normal Log) 4.
+Proof.
+  intros H. specialize (H 0 (-2)).
+  unfold glm_ell, glm_phi, dev_normal, dev_deriv_normal, inv_link, inv_link_deriv in H.
+  rewrite exp_0 in H.
+  pose proof (exp_pos (-2)) as P.
+  assert (U : exp (-2) < 1) by (rewrite <- exp_0; apply exp_increasing; lra).
+  nra.
+Qed.
+
+(** list form of the first-order inequality, with the softmax as the gradient of log-sum-exp *)
+Lemma lse_first_order_list (s s' : list R) : s <> [] -> length s' = length s ->
+  ln (sumexp s) + Rsum (map (fun c => softmax s c * (nth c s' 0 - nth c s 0)) (seq 0 (length s))) <= ln (sumexp s').
+Proof.
+  intros Hne Hl.
+  assert (Hs : seq 0 (length s) <> []) by (destruct s; [congruence|discriminate]).
+  pose proof (lse_first_order (fun c => nth c s 0) (fun c => nth c s' 0) (seq 0 (length s)) Hs) as H.
+  cbv beta zeta in H.
+  assert (E : Rsum (map (fun c => exp (nth c s 0)) (seq 0 (length s))) = sumexp s)
+    by (symmetry; apply (Rsum_map_nth exp s 0)).
+  assert (E' : Rsum (map (fun c => exp (nth c s' 0)) (seq 0 (length s))) = sumexp s')
+    by (rewrite <- Hl; symmetry; apply (Rsum_map_nth exp s' 0)).
+  rewrite E, E' in H. exact H.
+Qed.
+
+Example lse_first_order_example :
+  ln (sumexp [0; 0]) + Rsum (map (fun c => softmax [0; 0] c * (nth c [1; -1] 0 - nth c [0; 0] 0)) (seq 0 2)) <= ln (sumexp [1; -1]).
+Proof. apply (lse_first_order_list [0; 0] [1; -1]); [discriminate|reflexivity]. Qed.
